@@ -38,7 +38,7 @@ def strategy(tier):
     return S.scenarios(PROFILE)
 
 
-def evaluate(case):
+def evaluate_one(case):
     res = Result()
     trace, ix = run_case(case, run_on=False)
     shape_labels(case, trace, res)
@@ -59,3 +59,7 @@ def evaluate(case):
                       aborts=[dict(sched=sp['id'], tau=an['tau'], end=an['rex']['t'] if an['rex'] else None)
                               for sp, an in hits])
     return res
+
+
+from ._rt import with_variants                     # noqa: E402
+evaluate = with_variants(evaluate_one)
